@@ -404,6 +404,10 @@ func (f *frontF) Get(ctx context.Context, key []byte, b func(context.Context) (T
 			return nil, err
 		}
 
+		if t == nilTok {
+			return nil, nil
+		}
+
 		return t, nil
 	})
 
@@ -559,7 +563,15 @@ type frontFO struct {
 }
 
 func (f *frontFO) Get(ctx context.Context, key []byte, b func(context.Context) (Tok, error)) (Tok, bool, string, error) {
-	v, err := f.f.Get(ctx, key, b)
+	v, err := f.f.Get(ctx, key, func(ctx context.Context) (Tok, error) {
+		t, err := b(ctx)
+		if t == nilTok {
+			t = Tok{}
+		}
+
+		return t, err
+	})
+
 	return v, v == Tok{}, "", err
 }
 
@@ -642,6 +654,10 @@ func (f *frontFA) Get(ctx context.Context, key []byte, b func(context.Context) (
 		t, err := b(ctx)
 		if err != nil {
 			return nil, err
+		}
+
+		if t == nilTok {
+			return nil, nil
 		}
 
 		return t, nil
@@ -1020,6 +1036,13 @@ func (h *fh) builder(k int) func(ctx context.Context) (Tok, error) {
 			return Tok{}, timeoutTokErr{te}
 		}
 
+		// 'n': the build succeeds and its result is nil
+		if out == 'n' {
+			h.ev(FEv{Kind: "build-end", Key: k, N: n, Nil: true, Ctx: ctxObs{Err: ctx.Err()}})
+
+			return nilTok, nil
+		}
+
 		if out == 'f' || out == 'p' {
 			err := &TokErr{K: h.names[k], N: n}
 			h.ev(FEv{Kind: "build-end", Key: k, N: n, Err: err, Nil: true, Ctx: ctxObs{Err: ctx.Err()}})
@@ -1069,6 +1092,10 @@ func (e timeoutTokErr) Unwrap() error        { return e.TokErr }
 func (e timeoutTokErr) Is(target error) bool { return target == context.DeadlineExceeded }
 
 type cancelDurKey struct{}
+
+// nilTok is what a builder scripted with 'n' returns: the front-end hands a nil value (the zero value for a typed
+// front-end) to the library - a successful build whose result is "nothing there" (negative caching).
+var nilTok = Tok{K: "<nil>", O: "nil"}
 
 // builderPanic is what a builder scripted with 'p' panics with; the calling harness thread recovers it.
 type builderPanic struct{}
